@@ -472,6 +472,13 @@ class Model(object):
         del self.hands[hid]
         return self.expect((n, pattern(n)))
 
+    def op_str_final(self, n, _b, _t):
+        # new std::string copied into a character(30) result; the user's final clause deletes it
+        n = min(max(n, 0), 60)
+        hid = self.take_hand("string")
+        del self.hands[hid]
+        return self.expect((30, fpad(pattern(n), 30)))
+
     def op_str_lib(self, _a, _b, _t):
         return self.expect((len(LIB_STRING), LIB_STRING))
 
@@ -654,6 +661,12 @@ class Model(object):
             self.hit("char_array_with_none_items")
         return self.expect((tot,))
 
+    def op_bad_char_arr(self, _a, _b, _t):
+        # Python: an item in the middle of the list is not a string
+        if self.driver != "py":
+            raise Invalid("python only")
+        return self.expect(None)
+
     def op_bad_arr_sum(self, _a, _b, _t):
         if self.driver != "py":
             raise Invalid("python only")
@@ -733,7 +746,7 @@ OPS_COMMON = ["item_default", "item_val", "item_delete", "item_value", "item_set
               "make_item", "borrow_item", "default_item", "copy_item", "use_item", "sum_items", "assign",
               "make_box", "box_new", "box_value",
               "hi_new", "hd_new", "hi_get", "hd_get", "hi_put", "hd_put", "hi_delete", "hd_delete", "arr_weights",
-              "pt_sum", "pt_out", "pt_scale",
+              "pt_sum", "pt_out", "pt_scale", "str_final",
               "str_ref", "str_val", "str_owned", "str_lib", "str_in", "str_out", "str_inout",
               "char_out", "char_ret", "char_inout",
               "vec_sum", "vec_iota", "vec_inc", "vec_alloc", "vec_ret", "vec_str_count",
@@ -795,7 +808,7 @@ def gen_op(rng, model, enabled, uniq):
         return [name, lengths(rng)]
     if name == "char_ret_null":
         return [name, rng.choice([-1, -1, 0, 3, 17])]
-    if name == "char_ret_len":
+    if name in ("char_ret_len", "str_final"):
         return [name, rng.choice([0, 1, 7, 29, 30, 31, 45, 60])]
     if name == "arr_fill_out":
         return [name, rng.choice([0, 1, 2, 5, 16])]
@@ -839,6 +852,8 @@ def gen_op(rng, model, enabled, uniq):
         return [name, s]
     if name == "ar_tmp":
         return [name, rng.choice([0, 1, 2, 5, 16, 40])]
+    if name == "bad_char_arr":
+        return [name, rng.choice([1, 2, 3, 6, 9]), rng.randrange(12)]
     if name == "bad_arr_weights":
         return [name, rng.choice([0, 1, 3, 6, 40]), rng.randrange(12)]
     if name == "char_arr_none":
@@ -875,15 +890,15 @@ def gen_op(rng, model, enabled, uniq):
 LEAKABLE = ["item_value", "item_label", "use_item", "sum_items", "item_combine", "vec_dot", "box_value", "str_ref", "str_val", "str_lib",
             "str_in", "str_ptr_in", "str_val_in", "char_ret_len", "str_out", "str_inout", "char_out", "char_ret", "vec_sum", "vec_iota", "vec_alloc", "vec_ret",
             "arr_lib", "arr_sum", "arr_fill_out", "char_arr", "bad_vec_sum", "bad_arg", "bad_arr_sum",
-            "hi_get", "hd_get", "arr_weights", "bad_arr_weights", "char_arr_none",
+            "hi_get", "hd_get", "arr_weights", "bad_arr_weights", "char_arr_none", "bad_char_arr",
             "pt_sum", "pt_out", "pt_scale", "pt_tmp", "ar_tmp", "ar_total", "ar_get_vals", "ar_get_name", "ar_set_vals",
             "ar_set_name"]
-PY_ONLY = ["box_delete", "bad_vec_sum", "bad_arg", "nomem", "bad_arr_sum", "bad_arr_weights", "char_arr_none",
+PY_ONLY = ["box_delete", "bad_vec_sum", "bad_arg", "nomem", "bad_arr_sum", "bad_arr_weights", "char_arr_none", "bad_char_arr",
            "ar_new", "ar_set_vals", "ar_set_name", "ar_total", "ar_get_vals", "ar_get_name", "ar_drop", "ar_tmp", "pt_tmp"] + ["leak_" + n for n in LEAKABLE]
 # char_inout: the Python wrapper hands the str object's own UTF-8 buffer to the library, which
 # upper-cases it in place and thereby corrupts interned strings of the interpreter (a C03 defect;
 # it would make later *values* wrong, so the op is not generated for Python)
-NOT_PY = ["copy_item", "vec_inc", "vec_str_count", "cap_delete", "cap_scope", "char_inout", "char_grow", "vec_ret_d", "vec_iota_d", "vec_ret_l", "vec_inout_alloc", "pass_item"]
+NOT_PY = ["str_final", "copy_item", "vec_inc", "vec_str_count", "cap_delete", "cap_scope", "char_inout", "char_grow", "vec_ret_d", "vec_iota_d", "vec_ret_l", "vec_inout_alloc", "pass_item"]
 
 
 C_ONLY = ["item_release", "box_release", "hi_release", "hd_release", "cstr_ref", "cstr_lib", "cstr_owned", "cstr_in", "cstr_out", "cstr_inout"]
@@ -915,6 +930,7 @@ OP_NEEDS = {
     "cstr_out": ("strOut",), "cstr_inout": ("strInout",),
     "bad_vec_sum": ("vecSum",), "bad_arr_sum": ("arrSum",), "bad_arr_weights": ("arrWeights",),
     "char_arr_none": ("charArrLen",),
+    "str_final": ("strFinal",), "bad_char_arr": ("charArrLen",),
     "pt_sum": ("Pt", "ptSum"), "pt_out": ("Pt", "ptOut"), "pt_scale": ("Pt", "ptScale"), "pt_tmp": ("Pt", "ptSum"),
     # these call a fixed list of a dozen functions: only where the whole library is wrapped
     "bad_arg": ("*",), "nomem": ("*",),
